@@ -158,6 +158,18 @@ func (s *Sched) Await(match func(*Arrival) bool, d time.Duration) (*Arrival, err
 // Point matches arrivals at the named point.
 func Point(p string) func(*Arrival) bool { return func(a *Arrival) bool { return a.Point == p } }
 
+// Has reports whether an unconsumed arrival matches (it is not consumed).
+func (s *Sched) Has(match func(*Arrival) bool) bool {
+	s.mu.Lock()
+	defer s.mu.Unlock()
+	for _, a := range s.pending {
+		if match(a) {
+			return true
+		}
+	}
+	return false
+}
+
 // PendingCount returns the number of unconsumed arrivals.
 func (s *Sched) PendingCount() int {
 	s.mu.Lock()
